@@ -224,3 +224,100 @@ func execC10LateAdd(a []string) string {
 }
 
 func init() { executors["c10.lateadd"] = execC10LateAdd }
+
+// c10.slotrace <rounds>: a one-shot handler in the first slot takes message 1 and leaves; while the dispatch of that
+// message is still inside the filter of the next handler, one goroutine removes the one-shot handler (a caller that
+// gives up) and another registers a new handler.  The new handler receives every later message, in order, and its
+// queue is not closed.
+func execC10SlotRace(a []string) string {
+	log.SetOutput(ioutil.Discard)
+	rounds := 3
+	fmt.Sscanf(a[0], "%d", &rounds)
+	for r := 0; r < rounds; r++ {
+		x, y := qnet.Pipe()
+		began := make(chan struct{}, 1)
+		resume := make(chan struct{})
+		oneShot := make(chan *qnet.Message, 1)
+		id0 := y.MakeHandler(func(h *qnet.Header) (bool, bool) {
+			if h.ID == 1 {
+				return true, false
+			}
+			return false, true
+		}, oneShot, func(error) { time.Sleep(10 * time.Millisecond) })
+		first := true
+		y.MakeHandler(func(h *qnet.Header) (bool, bool) {
+			if h.ID == 1 && first {
+				first = false
+				began <- struct{}{}
+				select {
+				case <-resume:
+				case <-time.After(3 * time.Second):
+				}
+			}
+			return false, true
+		}, make(chan *qnet.Message, 1), nil)
+		send := func(id uint32) error {
+			return x.Send(qnet.NewMessage(qnet.NewHeader(qnet.Post, 1, 1, 1, id), []byte{byte(id)}))
+		}
+		sent := make(chan error, 1)
+		go func() { sent <- send(1) }()
+		select {
+		case <-began:
+		case <-time.After(3 * time.Second):
+			return "fail:stuck the first message is not dispatched"
+		}
+		removed := make(chan struct{})
+		go func() { y.RemoveHandler(id0); close(removed) }()
+		time.Sleep(25 * time.Millisecond)
+		late := make(chan *qnet.Message, 8)
+		lateClosed := make(chan struct{}, 1)
+		registered := make(chan int, 1)
+		go func() {
+			registered <- y.MakeHandler(func(h *qnet.Header) (bool, bool) { return h.ID >= 2, true }, late,
+				func(error) { lateClosed <- struct{}{} })
+		}()
+		time.Sleep(25 * time.Millisecond)
+		close(resume)
+		select {
+		case <-removed:
+		case <-time.After(3 * time.Second):
+			return "fail:stuck a removal during a dispatch does not return"
+		}
+		select {
+		case id := <-registered:
+			if id < 0 {
+				return "fail:refused a registration during a dispatch is refused"
+			}
+		case <-time.After(3 * time.Second):
+			return "fail:stuck a registration during a dispatch does not return"
+		}
+		if err := <-sent; err != nil {
+			return "fail:send"
+		}
+		for id := uint32(2); id <= 4; id++ {
+			if send(id) != nil {
+				return "fail:send"
+			}
+		}
+		for id := uint32(2); id <= 4; id++ {
+			select {
+			case m, ok := <-late:
+				if !ok || m == nil {
+					return fmt.Sprintf("fail:closed the queue of a handler that was registered and never removed is closed (round %d)", r)
+				}
+				if m.Header.ID != id {
+					return fmt.Sprintf("fail:order the handler registered during a dispatch got message %d for %d", m.Header.ID, id)
+				}
+			case <-lateClosed:
+				return fmt.Sprintf("fail:closed a handler that was registered and never removed is closed (round %d)", r)
+			case <-time.After(3 * time.Second):
+				return fmt.Sprintf("fail:lost the handler registered during a dispatch never received message %d (round %d)", id, r)
+			}
+		}
+		x.Close()
+		y.Close()
+	}
+	return "ok"
+}
+
+func init() { executors["c10.slotrace"] = execC10SlotRace }
